@@ -1023,6 +1023,13 @@ func TestC19(t *testing.T) {
 	st := NewStats("C19")
 	defer finish(t, st)
 	rounds := EnvInt("VERIF_C19_ROUNDS", 3)
+	// fixed conservation workloads on the atomic types first (arithmetic oracle: nothing added may disappear)
+	if sig, msg, n := c19AtomicStress(2 * rounds); sig != "" {
+		failPlain(t, st, "C19", "atomic-stress", map[string]interface{}{"rounds": 2 * rounds}, sig, msg)
+	} else {
+		st.Eval(int64(2 * rounds * 5)) // five fixed workloads per round
+		st.AddExtra("atomic_conservation_operations", int64(n))
+	}
 	rapid.Check(t, func(rt *rapid.T) {
 		mx := genMix(rt)
 		sig, msg, overlaps, unknown := c19Mix(mx, rounds)
@@ -1096,6 +1103,8 @@ func replayC19(kind string, raw json.RawMessage) (string, string) {
 			}
 		}
 		return "", ""
+	case "atomic-stress":
+		return replayC19Stress()
 	case "monotone":
 		var m struct {
 			Target    string `json:"target"`
